@@ -20,6 +20,7 @@ type relOpts struct {
 	two      bool // entities with two relation components
 	stats    bool
 	nTargets int
+	self     bool // allow an entity to be its own relation target
 }
 
 // relFilters are the persistent filters used by the relation scenarios.
@@ -59,7 +60,7 @@ func relAlphabet(o relOpts) func(m *model.Model) []model.Op {
 		r1 := with(m, ct.Of(ct.R1))
 		for _, e := range pick2(r1) {
 			for _, t := range tg {
-				if m.Ents[e].Tgt[ct.R1] != t && t != e {
+				if m.Ents[e].Tgt[ct.R1] != t && (t != e || o.self) {
 					ops = append(ops, model.Op{K: model.OpSetRel, Path: o.path, E: e, T: rel(ct.R1, t)})
 				}
 			}
@@ -74,7 +75,7 @@ func relAlphabet(o relOpts) func(m *model.Model) []model.Op {
 			}
 		}
 		for _, e := range pick2(without(m, ct.Of(ct.R1))) {
-			if len(tg) > 1 && tg[1] != e {
+			if len(tg) > 1 && (tg[1] != e || o.self) {
 				ops = append(ops, model.Op{K: model.OpAdd, Path: o.path, E: e, Cs: ct.Of(ct.R1), T: rel(ct.R1, tg[1])})
 			}
 		}
@@ -165,6 +166,17 @@ func init() {
 				Depth:    depth,
 			})
 		}
+		// entities that are their own target, 2-cycles and chains
+		scs = append(scs, &engine.Scenario{
+			Name:     "C04-relations/self-and-cycles",
+			Cfgs:     cfgs([]int{1}, []int{0}, []api.RelMode{api.RelByIdx}, relUniverse),
+			Filters:  relFilters(),
+			Slots:    1,
+			Oracle:   drv.Oracle{World: true, Typed: true, Family: relFamily(), Filters: true, Lock: true},
+			Preludes: [][]model.Op{relPreludes(model.PathMapN)[5], {{K: model.OpNew, Path: model.PathMapN, Cs: ct.Of(ct.P, ct.R1), T: rel(ct.R1, model.ZeroTarget)}, {K: model.OpNew, Path: model.PathMapN, Cs: ct.Of(ct.P, ct.R1), T: rel(ct.R1, 0)}, {K: model.OpSetRel, Path: model.PathMapN, E: 0, T: rel(ct.R1, 1)}}},
+			Alphabet: relAlphabet(relOpts{path: model.PathMapN, maxAlive: 4, shrink: true, batch: true, nTargets: 2, self: true}),
+			Depth:    depth,
+		})
 		return &Check{ID: "C04", Scenarios: scs,
 			Rule: "all histories over the relation alphabet (create child/target, set/add/remove relation, remove entity, batch removal by filter and target, batch retarget, Shrink, Reset) from 6 preludes; distinct = distinct model states; non-trivial = at least one alive entity holds a relation"}
 	}
